@@ -150,7 +150,7 @@ Print Assumptions C04_open_intact_refuted.
    model are byte for byte the files the judge expects (so no open alters a file), and the judge stays determined *)
 Theorem C04_history_accepted_by_judge : forall (name:list byte) (p:nat) (hdr:list byte),
   (len (params_to_text BSgen.Consts.version (N.of_nat p) ++ hdr) <= 65535)%N -> (N.of_nat p < 2^64)%N ->
-  forall cb hs, JudgeFacts.hvalid p hdr [] hs ->
+  forall cb hs, JudgeFacts.hvalid name p hdr [] hs ->
   accepted World.init_world judge_init (ONew name (N.of_nat p) hdr [] cb :: JudgeFacts.flatten name hs).
 Proof. exact history_accepted. Qed.
 Print Assumptions C04_history_accepted_by_judge.
